@@ -509,6 +509,72 @@ theorem layoutBounds_charwise (cfg : Cfg) (m : Mapper) (t : Trie V) (nfa : Nfa V
   rw [← gd_eq hi, (c3 i).1, c2]
   exact base_lt_charwise hpow hα hm I i
 
+/-! ### The pipeline -/
+
+theorem mem_retainedKeys_sub (lf : Bool) (ks : List (List Nat)) (k : List Nat)
+    (h : k ∈ retainedKeys lf ks) : k ∈ ks := by
+  unfold retainedKeys at h
+  split at h
+  · obtain ⟨i, hi, e, _⟩ := (mem_retKeys ks k).1 h
+    rw [← e]; exact List.getElem_mem hi
+  · exact h
+
+/-- The labels on the paths of a built trie are labels of the patterns. -/
+theorem node_labels_lt (kind : Nat) (P : List (LPat V)) (hk : keysOk P) (t : Trie V)
+    (ht : buildTrie kind P = .ok t) (hb : ∀ p ∈ P, ∀ c ∈ p.key, c < 256) :
+    ∀ u, t.hasNode u = true → ∀ c ∈ u, c < 256 := by
+  intro u hu c hc
+  rcases (buildTrie_nodes kind P hk t ht u).1 hu with rfl | ⟨k, hk', hu'⟩
+  · cases hc
+  · obtain ⟨p, hp, rfl⟩ := List.mem_map.1 (mem_retainedKeys_sub _ _ _ hk')
+    exact hb p hp c (((mem_nprefixes _ u).1 hu').2.subset hc)
+
+/-- Every raw entry of the mapper table is `invalidCode` or a code below the block length. -/
+theorem mapper_entry_lt (P : List (LPat V)) : ∀ c ∈ (Mapper.build P).table,
+    c = invalidCode ∨ c < max 2 (Nat.nextPowerOfTwo (Mapper.build P).alphaSize) := by
+  intro c hc
+  by_cases h : c = invalidCode
+  · exact Or.inl h
+  · right
+    obtain ⟨i, hi, rfl⟩ := Array.mem_iff_getElem.1 hc
+    have hg : (Mapper.build P).get i = some ((Mapper.build P).table[i]) := by
+      unfold Mapper.get
+      rw [Array.getElem?_eq_getElem hi]
+      simp [h]
+    have h1 := (mapperOk_build' P).1 i _ hg
+    have h2 := (LayC.blockLen_facts (Mapper.build P).alphaSize).2.2
+    omega
+
+/-- **`BoundsInv` holds for every automaton the construction pipeline returns.** -/
+theorem boundsInv_of_build (variant : Variant) (cfg : Cfg) (P : List (LPat V)) (da : DA V)
+    (hb : buildDA variant cfg P = .ok da) (hk : keysOk P)
+    (hbytes : variant = .bytewise → ∀ p ∈ P, ∀ c ∈ p.key, c < 256) : da.boundsInv = true := by
+  obtain ⟨_, acc, _, _, ht, hr⟩ := buildDA_ok_decomp variant cfg P da hb
+  have hsort := buildTrie_sorted _ _ _ ht
+  have ho := buildNfa_outOk acc.trie (cfg.kind != 0)
+  unfold buildRest at hr
+  split at hr
+  · cases hr
+  split at hr
+  · cases hr
+  simp only at hr
+  split at hr
+  · cases hr
+  rename_i states hst
+  cases hr
+  cases variant with
+  | bytewise =>
+    have hby := node_labels_lt cfg.kind P hk acc.trie ht (hbytes rfl)
+    obtain ⟨⟨k, hk0, hsz⟩, hel⟩ := layoutBounds_bytewise cfg _ _ _ states hst hsort hby ho
+    exact boundsInv_intro _ 8 k rfl hk0 hsz hel ho.2 (fun h => nomatch h)
+  | charwise =>
+    have hm : LayC.MapperOk (Mapper.build P) := ⟨(mapperOk_build' P).1, (mapperOk_build' P).2⟩
+    obtain ⟨⟨k, hk0, hsz⟩, hel⟩ := layoutBounds_charwise cfg (mapperFor .charwise P) _ _ states
+      hst hsort hm ho
+    obtain ⟨⟨n, hpow⟩, _, _⟩ := LayC.blockLen_facts (Mapper.build P).alphaSize
+    refine boundsInv_intro _ n k hpow hk0 ?_ hel ho.2 (fun _ => mapper_entry_lt P)
+    rw [← hpow]; exact hsz
+
+#print axioms boundsInv_of_build
+
 end Daac
-#print axioms Daac.layoutBounds_bytewise
-#print axioms Daac.layoutBounds_charwise
